@@ -47,3 +47,9 @@ Definition gate_code (g : gate) : Z := match g with GRaise => 0 | GReject => 1 |
 Definition chk_gate (c : list Z * Z) : bool := gate_code (decode_usb_gate (fst c)) =? snd c.
 (* calculate_canbus_checksum *)
 Definition chk_checksum (c : list Z * Z) : bool := checksum (fst c) =? snd c.
+
+(* the search's oracle (tools/props/c20.py:_required) demands exactly what the theorem C20_stream states:
+   (construction as [(is_packet, packed bytes)], the oracle's list of packets that must be cut out) *)
+Definition mk_seg (x : bool * (Z * Z)) : seg := if fst x then Pkt (unpack (snd x)) else Gap (unpack (snd x)).
+Definition chk_must (c : list (bool * (Z * Z)) * list (Z * Z)) : bool :=
+  list_eqb bytes_eqb (must_cut (Sync []) (map mk_seg (fst c))) (map unpack (snd c)).
